@@ -665,6 +665,11 @@ class Interp:
                 m = self.prog.resolve_method(o.cls, fn.attr)
                 if m is not None:
                     return self.call(m, args, kwargs, selfobj=o, depth=depth + 1)
+                fv = o.attrs.get(fn.attr)          # a field holding a function of the repository (strategy records)
+                if isinstance(fv, Sym) and getattr(fv, 'func', None) is not None:
+                    if fv.func.key in getattr(self, 'opaque_funcs', ()):
+                        return derived_call(fv.func.name, args, kwargs)
+                    return self.call(fv.func, args, kwargs, depth=depth + 1)
             if isinstance(o, Sym) and getattr(o, 'module', None) is not None:
                 v = self.module_value(o.module, fn.attr)
                 if isinstance(v, Sym) and getattr(v, 'func', None) is not None:
@@ -691,6 +696,23 @@ class Interp:
                 if int(mem) == int(args[0]):
                     return mem
             raise Raised('ValueError', e)
+        if isinstance(v, Sym) and getattr(v, 'cls', None) is not None and any(b.split('.')[-1] == 'NamedTuple' for b in v.cls.ext_bases) and not v.cls.bases:
+            # a typing.NamedTuple record: fields are the annotated names of the class body, in order
+            fields = [n.target.id for n in v.cls.node.body if isinstance(n, ast.AnnAssign) and isinstance(n.target, ast.Name)]
+            defaults = {n.target.id: n.value for n in v.cls.node.body if isinstance(n, ast.AnnAssign) and isinstance(n.target, ast.Name) and n.value is not None}
+            vals = dict(zip(fields, args))
+            for k_, a_ in kwargs.items():
+                if k_ not in fields or k_ in vals:
+                    raise Raised('TypeError', e)
+                vals[k_] = a_
+            for fld in fields:
+                if fld not in vals:
+                    if fld not in defaults:
+                        raise Raised('TypeError', e)
+                    vals[fld] = self.ev(defaults[fld], {}, v.cls.mod, None, depth)
+            if len(args) > len(fields):
+                raise Raised('TypeError', e)
+            return Obj(v.cls, **vals)
         if isinstance(v, Sym) and getattr(v, 'func', None) is not None:
             if v.func.key in getattr(self, 'opaque_funcs', ()):
                 r = derived_call(v.func.name, args, kwargs)
